@@ -18,6 +18,9 @@ use std::iter::zip;
 /// [`Avx2`]: crate::engine::Avx2
 #[inline(always)]
 pub fn eval_poly(erasures: &mut [GfElement; GF_ORDER], truncated_size: usize) {
+    #[cfg(feature = "verif-hooks")]
+    crate::verif_hooks::trace_core(crate::verif_hooks::PRIM_EVAL_POLY);
+
     let log_walsh = &*tables::LOG_WALSH;
 
     fwht::fwht(erasures, truncated_size);
